@@ -25,9 +25,90 @@ type interp struct {
 	leaves []leaf
 	env    map[string]int64
 	vals   map[ssa.Value]any
+	mem    map[string]any // field/element stores of the fragment, keyed by access path (one abstract cell per path)
+}
+
+// memKey names the abstract memory cell behind an address: root value identity + access path.
+func memKey(addr ssa.Value) string {
+	r, p := accessPath(addr)
+	if r == nil {
+		return ""
+	}
+	return fmt.Sprintf("%p", r) + "." + fmt.Sprint(p)
+}
+
+// integerCall evaluates the exact-integer methods of common.Integer on int64 models
+// (Div truncates like big.Int.Div on non-negative operands).
+func (it *interp) integerCall(x *ssa.Call) (any, error) {
+	n := calleeName(&x.Call)
+	args := callArgs(&x.Call)
+	get := func(i int) (int64, error) {
+		v, err := it.value(args[i])
+		if err != nil {
+			return 0, err
+		}
+		k, ok := v.(int64)
+		if !ok {
+			return 0, fmt.Errorf("non-integer operand")
+		}
+		return k, nil
+	}
+	switch n {
+	case "(common.Integer).Add", "(common.Integer).Sub", "(common.Integer).Mul", "(common.Integer).Div", "(common.Integer).Cmp":
+		a, err := get(0)
+		if err != nil {
+			return nil, err
+		}
+		b, err := get(1)
+		if err != nil {
+			return nil, err
+		}
+		switch n {
+		case "(common.Integer).Add":
+			return a + b, nil
+		case "(common.Integer).Sub":
+			return a - b, nil
+		case "(common.Integer).Mul":
+			return a * b, nil
+		case "(common.Integer).Div":
+			if b == 0 {
+				return nil, fmt.Errorf("division by zero")
+			}
+			return a / b, nil
+		default:
+			switch {
+			case a < b:
+				return int64(-1), nil
+			case a > b:
+				return int64(1), nil
+			}
+			return int64(0), nil
+		}
+	case "(common.Integer).Sign":
+		a, err := get(0)
+		if err != nil {
+			return nil, err
+		}
+		switch {
+		case a < 0:
+			return int64(-1), nil
+		case a > 0:
+			return int64(1), nil
+		}
+		return int64(0), nil
+	}
+	return nil, fmt.Errorf("cannot evaluate call %s", n)
 }
 
 func (it *interp) value(v ssa.Value) (any, error) {
+	if u, ok := v.(*ssa.UnOp); ok && u.Op == token.MUL && it.mem != nil {
+		if x, ok := it.mem[memKey(u.X)]; ok {
+			if cached, done := it.vals[v]; done {
+				return cached, nil // a load keeps the value it had when executed
+			}
+			return x, nil
+		}
+	}
 	for _, l := range it.leaves {
 		if l.M(v) {
 			x, ok := it.env[l.Name]
@@ -71,6 +152,8 @@ func (it *interp) value(v ssa.Value) (any, error) {
 		}
 	case *ssa.Convert:
 		return it.value(x.X)
+	case *ssa.Call:
+		return it.integerCall(x)
 	}
 	return nil, fmt.Errorf("cannot evaluate %s", v.String())
 }
@@ -163,6 +246,23 @@ func (it *interp) run(b, prev *ssa.BasicBlock, stop func(*ssa.BasicBlock) bool) 
 				if x.Op == token.NOT {
 					if v, err := it.value(x); err == nil {
 						it.vals[x] = v
+					}
+				}
+				if x.Op == token.MUL && it.mem != nil {
+					if mv, ok := it.mem[memKey(x.X)]; ok {
+						it.vals[x] = mv // snapshot at execution time
+					}
+				}
+			case *ssa.Call:
+				if v, err := it.integerCall(x); err == nil {
+					it.vals[x] = v
+				}
+			case *ssa.Store:
+				if it.mem != nil {
+					if v, err := it.value(x.Val); err == nil {
+						it.mem[memKey(x.Addr)] = v
+					} else {
+						delete(it.mem, memKey(x.Addr))
 					}
 				}
 			}
